@@ -151,9 +151,10 @@ struct Ctx {
   void known_excluded(const std::string& key) { known_hits[key]++; }
 };
 
+// A failed check throws vh::Failure unless its key is a listed known finding (counted; execution continues).
 #define VH_CHECK(ctx, cond, key, ...)                                                        \
   do { if (!(cond)) { char _b[1024]; snprintf(_b, sizeof _b, __VA_ARGS__);                   \
-       (ctx).fail((key), std::string(#cond " :: ") + _b); } } while (0)
+       (ctx).fail_unless_known((key), std::string(#cond " :: ") + _b); } } while (0)
 
 inline std::string json_escape(const std::string& s) {
   std::string o;
